@@ -648,4 +648,99 @@ theorem internal_safe (hB : BaseOK B n0 L0) (S : Spec) : ∀ fuel, ParseSafe B n
 
 end safe
 
+
+/-! ## what no load ever touches: attributes of existing instances -/
+
+structure Stable (st st' : St) : Prop where
+  next : st.next ≤ st'.next
+  fileOf : ∀ i, i < st.next → st'.fileOf i = st.fileOf i
+  defsOf : ∀ i, i < st.next → st'.defsOf i = st.defsOf i
+
+theorem Stable.refl (st : St) : Stable st st := ⟨Nat.le_refl _, fun _ _ => rfl, fun _ _ => rfl⟩
+
+theorem Stable.trans {a b c : St} (h1 : Stable a b) (h2 : Stable b c) : Stable a c where
+  next := Nat.le_trans h1.next h2.next
+  fileOf := fun i hi => by rw [h2.fileOf i (Nat.lt_of_lt_of_le hi h1.next), h1.fileOf i hi]
+  defsOf := fun i hi => by rw [h2.defsOf i (Nat.lt_of_lt_of_le hi h1.next), h1.defsOf i hi]
+
+theorem Stable.of_eq {st st' : St} (h1 : st'.next = st.next) (h2 : st'.fileOf = st.fileOf)
+    (h3 : st'.defsOf = st.defsOf) : Stable st st' :=
+  ⟨by rw [h1]; exact Nat.le_refl _, fun _ _ => by rw [h2], fun _ _ => by rw [h3]⟩
+
+theorem setLoc_stable (st : St) (i g j) : Stable st (st.setLoc i g j) := Stable.of_eq rfl rfl rfl
+theorem setAll_stable (st : St) (g j) : Stable st (st.setAll g j) := Stable.of_eq rfl rfl rfl
+theorem registerSelf_stable (st : St) (i) : Stable st (st.registerSelf i) := by
+  unfold St.registerSelf; split
+  · exact Stable.refl _
+  · exact setAll_stable _ _ _
+theorem removeFromRepos_stable (st : St) (ms rm) : Stable st (removeFromRepos st ms rm) := by
+  unfold removeFromRepos; split
+  · exact Stable.refl _
+  · exact Stable.of_eq rfl rfl rfl
+theorem cleanupA_stable (st : St) (j) : Stable st (cleanupA st j) := removeFromRepos_stable _ _ _
+theorem alloc_stable (st : St) (S g) : Stable st (st.alloc S g) :=
+  ⟨Nat.le_succ _, fun i hi => by simp [St.alloc, upd, Nat.ne_of_lt hi],
+   fun i hi => by simp [St.alloc, upd, Nat.ne_of_lt hi]⟩
+
+def ParseStable (parse : Parse) : Prop := ∀ st g, Stable st (parse st g).1
+
+theorem loadModelWith_stable {parse : Parse} (hp : ParseStable parse) (st : St) (i : Inst) (g : File) :
+    Stable st (loadModelWith parse st i g).1 := by
+  unfold loadModelWith
+  split
+  · exact Stable.refl _
+  · split
+    · exact setLoc_stable _ _ _ _
+    · have := hp st g
+      cases hpe : parse st g with
+      | mk st' rj =>
+        obtain ⟨r', j⟩ := rj
+        rw [hpe] at this
+        cases r' with
+        | ok => exact (this.trans (setAll_stable _ _ _)).trans (setLoc_stable _ _ _ _)
+        | fail k => exact this
+        | fuel => exact this
+
+theorem loadCalls_stable {parse : Parse} (hp : ParseStable parse) (i : Inst) :
+    ∀ (cs : List (Option File)) (st : St), Stable st (loadCalls parse i st cs).1 := by
+  intro cs
+  induction cs with
+  | nil => intro st; exact Stable.refl _
+  | cons c cs ih =>
+    intro st
+    simp only [loadCalls]
+    cases c with
+    | none => exact registerSelf_stable _ _
+    | some g =>
+      simp only
+      have h1 := loadModelWith_stable hp (st.registerSelf i) i g
+      cases hl : loadModelWith parse (st.registerSelf i) i g with
+      | mk st2 r2 =>
+        rw [hl] at h1
+        cases r2 with
+        | ok => exact ((registerSelf_stable _ _).trans h1).trans (ih st2)
+        | fail k => exact (registerSelf_stable _ _).trans h1
+        | fuel => exact (registerSelf_stable _ _).trans h1
+
+theorem afterCallback_stable (S : Spec) (st : St) (g : File) : Stable st (afterCallback S st g) :=
+  (Stable.trans (Stable.of_eq rfl rfl rfl : Stable st ({ st with reads := g :: st.reads } : St))
+    (alloc_stable _ S g)).trans (setAll_stable _ _ _)
+
+theorem internal_stable (S : Spec) : ∀ fuel, ParseStable (internal S fuel)
+  | 0 => fun st _ => by simp only [internal]; exact Stable.refl _
+  | fuel + 1 => by
+    intro st g
+    rw [internal_unfold]
+    split
+    · exact Stable.of_eq rfl rfl rfl
+    · have h1 := loadCalls_stable (internal_stable S fuel) st.next (S.calls g) (afterCallback S st g)
+      have h0 := afterCallback_stable S st g
+      cases hl : loadCalls (internal S fuel) st.next (afterCallback S st g) (S.calls g) with
+      | mk st2 r2 =>
+        rw [hl] at h1
+        cases r2 with
+        | ok => simp only; split <;> exact h0.trans h1
+        | fuel => exact h0.trans h1
+        | fail k => exact (h0.trans h1).trans (cleanupA_stable _ _)
+
 end Repo
